@@ -465,6 +465,10 @@ func (p *Parser) parseDict() (core.Object, error) {
 			break
 		}
 
+		if p.pos >= len(p.data) {
+			return nil, fmt.Errorf("unterminated dictionary")
+		}
+
 		// Parse key (must be a name)
 		if p.data[p.pos] != '/' {
 			return nil, fmt.Errorf("dictionary key must be a name")
